@@ -152,3 +152,68 @@ def fam_arc_point_to_t(R, radii, sign):
             R.ob('returned-parameter-is-the-point', ctx, z3.And(t.e >= 0, t.e <= 1, hit), cex=cex, robust=robust + off, timeout_ms=30000)
         if R.paths % 50 == 1:
             R.sample({'radii': radii, 'sign': sign, 'decisions': ''.join('TF'[not d[0]] for d in ctx.decisions[:ctx.pos])})
+
+
+REPLAY_LPT = '''
+a, b, u = %r
+ln = Line(a, b)
+for uu in (u, 0.0, 1.0, 0.25, 0.999, -0.2, 1.3):
+    p = a + uu * (b - a)
+    t = ln.point_to_t(p)
+    if 1e-5 < uu < 1 - 1e-5 or uu in (0.0, 1.0):
+        if t is None or abs(ln.point(t) - p) > 1e-5 * (1 + abs(a) + abs(b)): REPRODUCED('%%r.point_to_t(%%r) = %%r, the point is point(%%r)' %% (ln, p, t, uu))
+    elif abs(p - a) > 1e-3 and abs(p - b) > 1e-3 and t is not None:
+        REPRODUCED('%%r.point_to_t(%%r) = %%r for a point of the carrier line outside the segment (parameter %%r)' %% (ln, p, t, uu))
+q = a + 0.5 * (b - a) + 0.01 * 1j * (b - a)
+if ln.point_to_t(q) is not None: REPRODUCED('%%r.point_to_t(%%r) is not None for a point off the line' %% (ln, q))
+'''
+
+
+def fam_line_point_to_t(R):
+    """Line.point_to_t on a point a + u (b - a) + w i (b - a) (u, w symbolic: w = 0 is on the carrier line)."""
+    import svgpathtools.path as P
+    from svgpathtools.path import Line
+    R.bound(line='symbolic end points', point='a + u (b - a) + w i (b - a), u and w symbolic')
+    R.stub('np.isclose(point, start/end, atol=1e-6) -> symbolic flags', 'np.isclose(t.imag, 0) -> |t.imag| <= 1e-8')
+
+    def run():
+        cx = Ctx.cur
+        a, b = symc('a'), symc('b')
+        u, w = symr('u'), symr('w')
+        cx.assume(z3.Not(z3.And(a.real.e == b.real.e, a.imag.e == b.imag.e)))
+        d = b - a
+        p = a + d * u + SC(-d.imag, d.real) * w
+        near0, near1 = z3.Bool('near_start'), z3.Bool('near_end')
+        ln = Line(a, b)
+
+        def isclose(x, y, rtol=1e-5, atol=1e-8):
+            if y is ln.start:
+                return SB(near0)
+            if y is ln.end:
+                return SB(near1)
+            return NPProxy.isclose(x, y, rtol=rtol, atol=atol)
+        with patched(P, np=NPProxy(isclose=isclose)):
+            t = ln.point_to_t(p)
+        return a, b, u, w, near0, near1, t
+
+    for ctx, (kind, val) in explore(run, maxpaths=200):
+        R.path(ctx)
+        if kind != 'ok':
+            R.unexpected(ctx, 'unexpected %s %r' % (kind, val))
+            continue
+        a, b, u, w, near0, near1, t = val
+
+        def cex(m):
+            from ..symx import mcval
+            inp = (mcval(m, a), mcval(m, b), mval(m, u))
+            return {'cls': 'Line.point_to_t', 'inputs': {'line': str(inp[:2]), 'u': inp[2], 'w': mval(m, w)}, 'script': REPLAY_LPT % (inp,)}
+        rb = [zabs(v.e) <= 9 for z_ in (a, b) for v in (z_.real, z_.imag)] + [zabs((b - a).real.e) + zabs((b - a).imag.e) >= 1]
+        if t is None:
+            R.ob('None-only-off-the-segment', ctx, z3.Not(z3.And(w.e == 0, u.e >= 0, u.e <= 1)), cex=cex, robust=rb + [w.e == 0, u.e >= 0.1, u.e <= 0.9])
+        elif isinstance(t, float):
+            R.ob('end-point-shortcut', ctx, near0 if t == 0.0 else near1, cex=cex)
+        else:
+            t = lift(t)
+            R.ob('returned-parameter-is-the-point', ctx, z3.And(t.e >= 0, t.e <= 1, t.e == u.e, zabs(w.e) <= 1e-8), cex=cex,
+                 robust=rb + [z3.Or(zabs(t.e - u.e) >= 0.01, zabs(w.e) >= 0.01)], timeout_ms=60000)
+        R.sample({'result': 'None' if t is None else str(t)[:40]})
